@@ -36,16 +36,16 @@ type edit struct {
 }
 
 type fileRewriter struct {
-	fset    *token.FileSet
-	file    *ast.File
-	src     []byte
-	tf      *token.File
-	info    *types.Info
-	pkgPath string
-	rel     string // file path relative to repo
-	edits   []edit
-	counts  map[string]int
-	siteN   int
+	fset     *token.FileSet
+	file     *ast.File
+	src      []byte
+	tf       *token.File
+	info     *types.Info
+	pkgPath  string
+	rel      string // file path relative to repo
+	edits    []edit
+	counts   map[string]int
+	siteN    int
 	skipComm map[ast.Node]bool
 }
 
